@@ -78,7 +78,7 @@ impl<'n> TryFromNode<'n> for Field {
 
         if let Some(ref_name) = node.attribute("ref") {
             let (xml_name, namespace_ref) = split_type(ref_name);
-            let rust_name = rename_keywords(&to_snake_case(xml_name)).to_string();
+            let rust_name = as_field_name(xml_name);
 
             if ref_name.starts_with("xml") {
                 /* This is a reference to an XML type */
@@ -146,7 +146,7 @@ impl<'n> TryFromNode<'n> for Field {
             .ok_or_else(|| WriterError::attribute_missing(&node, "name"))?
             .to_string();
 
-        let rust_name = rename_keywords(&to_snake_case(&xml_name)).to_string();
+        let rust_name = as_field_name(&xml_name);
 
         let rust_type = node
             .attribute("type")
@@ -332,7 +332,12 @@ pub fn as_rust_type(node_type: &str, doc: &RustDocument) -> RustFieldType {
 
 pub fn as_field_name(xml_name: &str) -> String {
     let field_name = to_snake_case(xml_name);
-    rename_keywords(&field_name).to_string()
+    // a name without letters, or one that starts with a digit, is not an identifier yet
+    match field_name.chars().next() {
+        None => "_unnamed".to_string(),
+        Some(c) if c.is_ascii_digit() => format!("_{field_name}"),
+        Some(_) => rename_keywords(&field_name).to_string(),
+    }
 }
 
 /// Make a snake_case name usable as a Rust identifier: every strict or reserved keyword
